@@ -12,6 +12,7 @@ case "$ID" in
   C13|C19) flavour=sched ;;
 esac
 BIN=/verif/.build/vcheck-$flavour
+if [ -n "${VERIF_REPO:-}" ]; then BIN=/verif/.build/alt-$(echo "$VERIF_REPO" | md5sum | cut -c1-8)/vcheck-$flavour; mkdir -p $(dirname $BIN); fi
 if ! ./build.sh "$flavour" "$BIN" >/verif/.build/build-$flavour-$ID.log 2>&1; then
   echo "INFRA: harness does not build against the current /repo tree (flavour $flavour); see /verif/.build/build-$flavour-$ID.log"
   tail -20 /verif/.build/build-$flavour-$ID.log
